@@ -83,14 +83,25 @@ class TU:
 
     def __init__(self, path, filt='WorldBuilder', cache_dir=None):
         self.path = path
-        cmd = ['clang++'] + clang_flags() + ['-fsyntax-only', '-Xclang', '-ast-dump=json', '-Xclang',
-                                             '-ast-dump-filter=' + filt, path]
+        cmd = ['clang++'] + clang_flags() + ['-fsyntax-only', '-Xclang', '-ast-dump=json'] + \
+              (['-Xclang', '-ast-dump-filter=' + filt] if filt else []) + [path]
         r = subprocess.run(cmd, capture_output=True, text=True)
         if not r.stdout.strip():
             raise ExtractionBreak('clang produced no AST for %s: %s' % (path, r.stderr[-1500:]))
         if ' error: ' in r.stderr:
             raise ExtractionBreak('clang errors in %s: %s' % (path, r.stderr[-1500:]))
         self.docs = parse_docs(r.stdout)
+        if not filt:
+            # whole translation unit (needed for functions outside namespace WorldBuilder: extern "C" wrappers,
+            # main of the apps): keep namespace WorldBuilder, extern "C" blocks and free functions, drop the rest
+            keep = []
+            for d in self.docs:
+                for c in d.get('inner', []) if d.get('kind') == 'TranslationUnitDecl' else [d]:
+                    k = c.get('kind')
+                    if (k == 'NamespaceDecl' and c.get('name') in ('WorldBuilder', 'wrapper_cpp')) or k in ('LinkageSpecDecl', 'FunctionDecl'):
+                        keep.append(c)
+            self.docs = keep
+        del r
         self.by_id = {}
         self.parent = {}
         self.defs = {}        # decl id -> defining node (with body)
@@ -213,12 +224,18 @@ def sig_key(qt):
 
 
 _TU_CACHE = {}
+import threading
+_TU_LOCK = threading.Lock()
+_TU_LOCKS = {}
 
 
 def get_tu(path, filt='WorldBuilder'):
     key = (path, filt)
-    if key not in _TU_CACHE:
-        _TU_CACHE[key] = TU(path, filt)
+    with _TU_LOCK:
+        lk = _TU_LOCKS.setdefault(key, threading.Lock())
+    with lk:
+        if key not in _TU_CACHE:
+            _TU_CACHE[key] = TU(path, filt)
     return _TU_CACHE[key]
 
 
@@ -348,6 +365,13 @@ class Translator:
         t = re.sub(r'([<, ])(\d+)U([>,])', r'\1\2\3', t)
         if t.startswith('::'):
             t = t[2:]
+        m = re.match(r'^(.*?)\s*\(\*\)\[(\d+)\]$', t)
+        if m:
+            inner = self._ctype_noref('std::array<%s, %s>' % (strip_cv(m.group(1)), m.group(2)), tu, node)
+            return CType(inner.c + ' *', 'ptr', pointee=inner)
+        m = re.match(r'^(.*?)\s*\[(\d+)\]$', t)
+        if m and not t.startswith('std::'):
+            return self._ctype_noref('std::array<%s, %s>' % (strip_cv(m.group(1)), m.group(2)), tu, node)
         if t.endswith('*'):
             inner = self._ctype_noref(t[:-1], tu, node)
             return CType(inner.c + ' *', 'ptr', pointee=inner)
@@ -1298,7 +1322,10 @@ class FunctionBody:
         pass
 
     def e_ArraySubscriptExpr(self, n):
-        return '%s[%s]' % (self.expr(n['inner'][0]), self.expr(n['inner'][1]))
+        b = n['inner'][0]
+        if b.get('kind') == 'ImplicitCastExpr' and b.get('castKind') == 'ArrayToPointerDecay':
+            return '%s.e[%s]' % (self.expr(b['inner'][0]), self.expr(n['inner'][1]))
+        return '%s[%s]' % (self.expr(b), self.expr(n['inner'][1]))
 
     def e_UnaryOperator(self, n, stmt=False):
         op = n['opcode']
@@ -1369,6 +1396,8 @@ class FunctionBody:
 
     def cast(self, n, inner):
         ck = n.get('castKind')
+        if ck == 'ArrayToPointerDecay' and self.strip(inner).get('kind') != 'StringLiteral':
+            return '%s.e' % self.expr(inner)
         if ck in ('LValueToRValue', 'NoOp', 'FunctionToPointerDecay', 'ArrayToPointerDecay', 'ConstructorConversion',
                   'UserDefinedConversion', 'NullToPointer', 'BuiltinFnToFnPtr'):
             return self.expr(inner)
@@ -1449,7 +1478,6 @@ class FunctionBody:
             if len(real) == 0:
                 return '%s_new_empty()' % ct.name
             if len(real) == 2 and self.ct(real[0]).kind == 'scalar':
-                self.tr.shim_used.add('vec_fill')
                 return '%s_new_fill(%s, %s)' % (ct.name, self.expr(real[0]), self.expr(real[1]))
             if len(real) == 1 and self.ct(real[0]).kind == 'scalar':
                 return '%s_new_fill(%s, %s)' % (ct.name, self.expr(real[0]), self.tr.zero(ct.elem))
@@ -1804,10 +1832,21 @@ class FunctionBody:
         return self.expr(a)
 
     def e_CXXNewExpr(self, n):
-        brk('new expression', n)
+        if n.get('isArray') or n.get('isPlacement'):
+            brk('array / placement new', n)
+        pt = self.ct(n)
+        init = [c for c in n.get('inner', []) if c.get('kind')]
+        if len(init) != 1:
+            brk('new expression form', n)
+        val = self.expr(init[0])
+        t = self.tmp(pt.c, '(%s)malloc(sizeof(%s))' % (pt.c, pt.pointee.c))
+        self.pre.append('*%s = %s;' % (t, val))
+        self.tr.dropped.append('heap allocation failure of new is not modelled')
+        return t
 
     def e_CXXDeleteExpr(self, n):
-        brk('delete expression', n)
+        self.tr.dropped.append('destructor body run by delete is not translated (delete -> free)')
+        return 'free(%s)' % self.expr(n['inner'][0])
 
     def e_LambdaExpr(self, n):
         brk('lambda', n)
@@ -1842,10 +1881,11 @@ if __name__ == '__main__':
     ap.add_argument('--stub', action='append', default=[])
     ap.add_argument('--alias', action='append', default=[], help='qual|sig=cname')
     ap.add_argument('--outline', action='store_true')
+    ap.add_argument('--whole', action='store_true', help='dump the whole TU (functions outside namespace WorldBuilder)')
     a = ap.parse_args()
     aliases = dict(x.rsplit('=', 1) for x in a.alias)
     try:
-        tr = translate([dict(tu=a.tu, qual=a.qual, sig=a.sig, cname=a.cname)], dict(stub=a.stub, aliases=aliases, outline_fp=a.outline))
+        tr = translate([dict(tu=a.tu, qual=a.qual, sig=a.sig, cname=a.cname, filter='' if a.whole else 'WorldBuilder')], dict(stub=a.stub, aliases=aliases, outline_fp=a.outline))
         sys.stdout.write(tr.emit())
         for d in sorted(set(tr.dropped)):
             sys.stderr.write('dropped: %s\n' % d)
